@@ -459,6 +459,13 @@ def run_contract(cls, tier="quick", cross=False, no_replay=()):
             r = Result(f"{cls.target}/explore[{case}]", cls.target, case, "explore", cls.kind)
             r.verdict, r.detail = "unknown", "engine limit: %s" % e
             r.seconds = time.time() - t0
+            # the function left the verifier's reach (restructured / unmodelled dependency): the contract's native
+            # cross-check of this function may still find a concrete failing input on the real code
+            if cls.kind != "canary":
+                try:
+                    r.replay = c.replay(case, "explore", None, None)
+                except Exception as ee:
+                    r.replay = {"error": "replay crashed: %r" % ee, "confirmed": False}
             results.append(r)
             continue
         except Exception as e:
